@@ -282,4 +282,5 @@ func TestC15(t *testing.T) {
 	hx.Run(s, c15Writer, s.N(3000, 30000))
 	hx.Run(s, c15Fault, s.N(1500, 15000))
 	hx.Run(s, c15Qualified, s.N(1500, 15000))
+	hx.Run(s, c15Deep, s.N(300, 3000))
 }
